@@ -44,3 +44,32 @@ def uplink_ap(data: int, n: int, address: int) -> int:
 
 def uplink(data: int, n: int, address: int) -> int:
     return (data << 24) | uplink_ap(data, n, address)
+
+
+def solve_low24(prefix: int, nprefix: int, want_parity: int) -> int:
+    """the 24-bit value a such that parity(prefix||a) == want_parity, where prefix has nprefix bits (the parity is GF(2)
+    linear and, restricted to the last 24 data bits, a bijection): used to build frames whose wire parity field takes a
+    chosen value, e.g. a DF11 reply whose PI field is 000000 although an interrogator code is overlaid."""
+    nd = nprefix + 24
+    target = want_parity ^ parity(prefix << 24, nd)
+    # Gaussian elimination over the images of the 24 unit vectors
+    basis = {}          # leading bit -> (image, preimage)
+    for i in range(24):
+        img, pre = parity(1 << i, nd), 1 << i
+        while img:
+            hb = img.bit_length() - 1
+            if hb not in basis:
+                basis[hb] = (img, pre)
+                break
+            bi, bp = basis[hb]
+            img ^= bi
+            pre ^= bp
+    a = 0
+    t = target
+    while t:
+        hb = t.bit_length() - 1
+        bi, bp = basis[hb]
+        t ^= bi
+        a ^= bp
+    assert parity((prefix << 24) | a, nd) == want_parity
+    return a
